@@ -1,6 +1,7 @@
 import pathlib
 from typing import Sequence
 
+from visions.types.file import path_exists
 from visions.types.image import Image
 from visions.utils.images.image_utils import path_is_image
 
@@ -8,6 +9,6 @@ from visions.utils.images.image_utils import path_is_image
 @Image.contains_op.register
 def image_contains(sequence: Sequence, state: dict) -> bool:
     return all(
-        isinstance(p, pathlib.Path) and p.exists() and path_is_image(p)
+        isinstance(p, pathlib.Path) and path_exists(p) and path_is_image(p)
         for p in sequence
     )
